@@ -405,3 +405,83 @@ func refsAndBroken(h []hslab, root atree.SlabID) (refs, broken []atree.SlabID) {
 	hx.SortIDs(broken)
 	return
 }
+
+// expectedYield is the harness's own reading of what PersistentSlabStorage.SlabIterator has to
+// yield (identifiers with multiplicity): every non-nil pending slab, every non-nil cached slab
+// whose identifier is not a key of the write set and, level by level below each of them, every
+// referenced slab whose identifier is a key of NEITHER layer, read from the ledger each time it is
+// met (the references of a ledger register are read by the register walker).  notFound: a
+// reference met on the way resolves nowhere (the iterator must fail with SlabNotFound).
+// ok=false: no prediction (a register the walker cannot read, or more than 200000 fetches: a
+// reference cycle among registers that are not loaded).
+func expectedYield(ps *atree.PersistentSlabStorage, ledger *hx.Ledger) (ids []atree.SlabID, notFound bool, ok bool) {
+	deltas := atree.VerifDeltas(ps)
+	cache := atree.VerifCache(ps)
+	fetches := 0
+	below := func(s atree.Slab) bool {
+		level, err := refsByBytes(s)
+		if err != nil {
+			return false
+		}
+		for len(level) > 0 {
+			var next []atree.SlabID
+			for _, r := range level {
+				if _, in := deltas[r]; in {
+					continue
+				}
+				if _, in := cache[r]; in {
+					continue
+				}
+				reg, in := ledger.Seg[r]
+				if !in || len(reg) == 0 {
+					notFound = true
+					return true
+				}
+				if fetches++; fetches > 200000 {
+					return false
+				}
+				ids = append(ids, r)
+				rr, err := regRefs(reg)
+				if err != nil {
+					return false
+				}
+				next = append(next, rr...)
+			}
+			level = next
+		}
+		return true
+	}
+	for id, s := range deltas {
+		if s == nil {
+			continue
+		}
+		ids = append(ids, id)
+		if !below(s) {
+			return nil, false, false
+		}
+	}
+	for id, s := range cache {
+		if _, in := deltas[id]; in || s == nil {
+			continue
+		}
+		ids = append(ids, id)
+		if !below(s) {
+			return nil, false, false
+		}
+	}
+	hx.SortIDs(ids)
+	return ids, notFound, true
+}
+
+// sameSlabObjects: two snapshots of a layer hold the same keys and the same slab objects.
+func sameSlabObjects(a, b map[atree.SlabID]atree.Slab) bool {
+	if len(a) != len(b) {
+		return false
+	}
+	for k, v := range a {
+		if w, ok := b[k]; !ok || w != v {
+			return false
+		}
+	}
+	return true
+}
